@@ -75,6 +75,11 @@ namespace riddle
             case BoolLiteral_ID:
             case IntLiteral_ID:
             case RealLiteral_ID:
+            case StringLiteral_ID:
+            case LPAREN_ID:
+            case PLUS_ID:
+            case MINUS_ID:
+            case NEW_ID:
                 stmnts.emplace_back(_statement());
                 break;
             case ID_ID:
